@@ -22,7 +22,7 @@ ASSUMPTIONS = [
     'platform BOM table (utf-16, utf-32, utf-8-sig) stated in Tie/Boms.lean is checked against CPython here',
 ]
 VALUE_RE = re.compile(r'[A-Za-z0-9/._-]+')
-TEXTS = ['abc', '\ufeffstarts with U+FEFF\nline two', 'one\n  two, indented\n\n three', 'line one\nline two\n', 'dos\r\nline\r\n', 'x']
+TEXTS = ['abc', '\ufeffstarts with U+FEFF\nline two', 'one\n  two, indented\n\n three', 'first file\n\ufeffsecond file, its own BOM kept\n', 'line one\nline two\n', 'dos\r\nline\r\n', 'x']
 
 
 def catalogue():
@@ -347,9 +347,9 @@ def explore(ctx, escalate=False, hint=None):
             '(model vs implementation vs BOM-free encoding computed without the BOM table), writer->reader round trip '
             'x %d texts x {unset,unix,dos} with byte equality across spellings of one codec; the concrete Lean codecs of '
             'Model/Codecs.lean against CPython (canonical name, strict encode / decode); distinct by (op, spelling, arg)'
-            % (len(cat), nspell, json.dumps(outside, sort_keys=True), len(TEXTS) if thorough else 3))
+            % (len(cat), nspell, json.dumps(outside, sort_keys=True), len(TEXTS) if thorough else 4))
     res = base.explore_generic(ctx, spec, None, rule, exhaustive=True, chunk=3000)
-    n, vios = roundtrip_check(cat, outside, len(TEXTS) if thorough else 3, rng)
+    n, vios = roundtrip_check(cat, outside, len(TEXTS) if thorough else 4, rng)
     res['evaluations'] += n
     res['violations'] += vios[:30]
     # platform BOM table stated in Tie/Boms.lean
